@@ -268,6 +268,8 @@ class RunnerCase(Case):
         lines.append("RUN %s %d %s OBS %d %s" % (self.fn, len(self.args), " ".join(arg_toks), len(obs),
                                                  " ".join("%d %s" % af for af in obs)))
         calls = [name for _, name, _, _ in w.log]
+        self.calls_full = ["|".join([name, ser.tok_frozen(recv).replace(" ", "_")] +
+                                    [ser.tok_frozen(a).replace(" ", "_") for a in eargs]) for recv, name, eargs, _ in w.log]
         return lines, res, obs, after, calls
 
 
